@@ -233,6 +233,14 @@ def evaluate(case) -> Result:
                         w.node.peers["peer1.example"].disconnect_reason == pm.DISCONNECT_REASON_DWA_TIMEOUT:
                     res.classes.append("dpr-after-watchdog-expiry")
                     ready = False
+                if not ready and cur.remote.cid in dpr_cids and nc is not None and not overdue:
+                    # the peer repeats its DPR on the connection it has already announced to leave (the first DPA got lost,
+                    # say): a received DPR is answered, and the recorded reason stays
+                    res.classes.append("dpr-repeated")
+                    if not cur.node_closed:
+                        dpas = [x for x in cur.refresh()[n0:] if x.code == W.CMD_DP and not x.is_request and x.h["hbh"] == hbh]
+                        if len(dpas) != 1 or dpas[0].result_code() != 2001:
+                            res.v("C12/dpr/repeated/answer", f"second DPR on the connection answered with {[x.brief() for x in cur.out[n0:]]}")
                 if ready:
                     dpr_cids.add(cur.remote.cid)
                     dpr_conns.append(cur)
